@@ -137,7 +137,7 @@ def run(ctx):
     mc(ctx)
     q = ctx.quick
     nproc = 4 if q else 8
-    per = 12000 if q else 640000          # random lifts per recorder process
+    per = 12000 if q else 500000          # random lifts per recorder process
     jobs = [("c05", ["--mode", "corpus", "--corpus", CORPUS], "corpus.ndjson", {"timeout": 900})]
     for i in range(nproc):
         jobs.append(("c05", ["--mode", "random", "--corpus", CORPUS, "--n", per, "--stream", i,
@@ -156,6 +156,7 @@ def run(ctx):
     }
     ctx.extra["events_validated_by_outcome"] = outcomes
     ctx.extra["instruction_graphs_validated"] = st.get("graphs_logged", 0)
+    ctx.extra["watchdog_expiries_not_reproduced"] = st.get("timeouts_retried", 0) - sum(v for k, v in st.items() if k.startswith("timeout:"))
     ctx.extra["not_logged"] = {k: st.get(k, 0) for k in ("deduped_ok", "deduped_graphs", "capped_err", "deduped_panic")}
     oversized = {k: v for k, v in st.items() if k.startswith("oversized:")}
     if oversized:
@@ -273,11 +274,11 @@ def selftest(ctx):
     guards and successors, panic / timeout outcomes) and expect exactly those to be rejected, on
     top of whatever the unchanged trace already has rejected."""
     ctx.build(["c05"])
-    p1 = ctx.record("c05", ["--mode", "corpus", "--corpus", CORPUS, "--arch", "x86"], "selftest_x86.ndjson")
-    p2 = ctx.record("c05", ["--mode", "corpus", "--corpus", CORPUS, "--arch", "aarch64"], "selftest_a64.ndjson")
-    p3 = ctx.record("c05", ["--mode", "corpus", "--corpus", CORPUS, "--arch", "mipsel"], "selftest_mips.ndjson")
+    p1 = ctx.record("c05", ["--mode", "corpus", "--corpus", CORPUS, "--arch", "x86", "--dedupe", 0], "selftest_x86.ndjson")
+    p2 = ctx.record("c05", ["--mode", "corpus", "--corpus", CORPUS, "--arch", "aarch64", "--dedupe", 0], "selftest_a64.ndjson")
+    p3 = ctx.record("c05", ["--mode", "corpus", "--corpus", CORPUS, "--arch", "mipsel", "--dedupe", 0], "selftest_mips.ndjson")
     evs = ctx.read_ndjson(p1) + ctx.read_ndjson(p2) + ctx.read_ndjson(p3)
-    evs = evs[::2][:1800]
+    evs = evs[::5][:1800]
     base_path = os.path.join(ctx.work, "selftest_base.ndjson")
     with open(base_path, "w") as f:
         for e in evs:
@@ -285,18 +286,15 @@ def selftest(ctx):
     base = ctx.tlc_trace("Trace_C05", base_path)
     base_bad = {rj["line"] for rj in base.rejects}
     hows = ["panic", "timeout", "exit", "entry", "assign", "load", "sort", "guard", "succ", "edge", "dead"]
-    bad, by_how = set(), {}
-    k = 0
+    bad, by_how = set(), {h: 0 for h in hows}
     for i, e in enumerate(evs):
         if (i + 1) in base_bad or i % 3 != 0:
             continue
-        # try the corruptions round-robin until one applies
-        for j in range(len(hows)):
-            how = hows[(k + j) % len(hows)]
+        # the applicable corruption used least so far
+        for how in sorted(hows, key=lambda h: by_how[h]):
             if _corrupt(e, how):
                 bad.add(i + 1)
-                by_how[how] = by_how.get(how, 0) + 1
-                k += j + 1
+                by_how[how] += 1
                 break
     mut_path = os.path.join(ctx.work, "selftest_mut.ndjson")
     with open(mut_path, "w") as f:
@@ -309,4 +307,15 @@ def selftest(ctx):
         len(evs), len(base_bad), len(bad), by_how, len(got), len(got - want), len(want - got)))
     if want - got:
         core.log("missed lines: %s" % sorted(want - got)[:10])
-    return len(bad) > 100 and all(by_how.get(h, 0) > 0 for h in hows) and got == want
+    ok = len(bad) > 100 and all(by_how.get(h, 0) > 0 for h in hows) and got == want
+    # the watchdog path of the recorder itself: a lift that hangs (test hook) must come out as a
+    # `timeout` event that Trace_C05 rejects, and the recorder must carry on after it
+    inp = os.path.join(ctx.work, "selftest_hang_in.ndjson")
+    with open(inp, "w") as f:
+        for b in ("60000000", "7c632a14", "38600000"):
+            f.write(json.dumps({"ev": "lift", "arch": "ppc", "intr": 0, "addr": "0", "bytes": b}) + "\n")
+    hp = ctx.record("c05", ["--mode", "replay", "--in", inp], "selftest_hang.ndjson", extra_env={"C05_FAKE_HANG": "7c632a14"})
+    hr = ctx.tlc_trace("Trace_C05", hp)
+    hang_ok = [(rj["line"], rj["why"]) for rj in hr.rejects] == [(2, "timeout")] and len(ctx.read_ndjson(hp)) == 3
+    core.log("selftest: hanging lift -> %s" % [(rj["line"], rj["why"]) for rj in hr.rejects])
+    return ok and hang_ok
